@@ -14,6 +14,7 @@ import Driver.C13
 import Driver.C14
 import Driver.C09
 import Driver.C10
+import Driver.C11
 open Ws.Driver
 
 def dispatch (op : String) (args : List String) (obs : String) : String × String :=
@@ -39,6 +40,11 @@ def dispatch (op : String) (args : List String) (obs : String) : String × Strin
   | "hup" => c09hup args obs
   | "dl" => c10dl args obs
   | "dial" => c10dial args obs
+  | "pair" => c11pair args obs
+  | "chup" => c11chup args obs
+  | "chdl" => c11chdl args obs
+  | "dbgup" => c11dbgup args obs
+  | "dbgdl" => c11dbgdl args obs
   | "neg" => c14neg args obs
   | "popt" => c14popt args obs
   | "msb" => c13msb args obs
